@@ -280,12 +280,13 @@ func largeFileReceive(wrt http.ResponseWriter, req *http.Request) {
 	}
 
 	buff := make([]byte, 512)
-	if _, err = file.Read(buff); err != nil {
+	nread, err := file.Read(buff)
+	if err != nil {
 		writeHttpResponse(ErrUnknown(msgID, "", now), err)
 		return
 	}
 
-	mimeType := http.DetectContentType(buff)
+	mimeType := http.DetectContentType(buff[:nread])
 	// If DetectContentType fails, see if client-provided content type can be used.
 	if mimeType == "application/octet-stream" {
 		if userContentType, params, err := mime.ParseMediaType(header.Header.Get("Content-Type")); err == nil {
